@@ -72,6 +72,7 @@ where
     let mode = rng.below(4);
     let steer = rng.bool();
     let mut coder: AnsCoder<M::W, S, CountBackend<M::W>> = AnsCoder::default();
+    let peek_16: u64 = *rng.pick(&[0u64, 0, 2, 8]);
     let mut ic = Kahan::new();
     let mut slack = Kahan::new();
     let konst = (s + 2 * w) as f64;
@@ -95,6 +96,11 @@ where
         }
         let (_, p) = zoo[mi].cp(sym);
         let prec = zoo[mi].prec();
+        if peek_16 > 0 && rng.below(16) < peek_16 {
+            let g = coder.get_compressed();
+            let _ = g.map(|g| g.v.len());
+            run.count("ans_peeks_while_encoding", 1);
+        }
         let w0 = coder.bulk().writes;
         zoo[mi].ans_encode(&mut coder, sym).expect("encode");
         let wrote = coder.bulk().writes - w0;
@@ -153,6 +159,24 @@ where
     run.count("range_messages", 1);
     let n = if run.small { rng.usize_in(1, 60) } else if run.thorough() { rng.usize_in(1000, 40000) } else { rng.usize_in(200, 2500) };
     let mut enc: Enc<M, S> = RangeEncoder::new();
+    if rng.chance(1, 6) {
+        // "starting from an empty coder" includes a coder emptied with clear()
+        let mut junk = Msg::<M> { zoo: Vec::new(), syms: Vec::new() };
+        let mut e0 = Edges::default();
+        let cfg0 = DriveCfg { n: rng.usize_in(1, 60), steer_16: 12, max_n_symbols: 16, end_near_16: 0 };
+        if !drive(run, rng, &mut enc, &mut junk, None, &mut e0, &cfg0, |_, _, _, _, _| true) {
+            return;
+        }
+        if num_inverted::<M, S>(&enc) > 0 {
+            run.count("clear_while_inverted", 1);
+        }
+        enc.clear();
+        run.count("coders_reused_after_clear", 1);
+    }
+    // looking at the compressed data while encoding must not cost anything either
+    let peek_16: u64 = *rng.pick(&[0u64, 0, 2, 8]);
+    let mut peeks = 0u64;
+    let mut peeks_inverted = 0u64;
     let mut msg = Msg::<M> { zoo: Vec::new(), syms: Vec::new() };
     let mut edges = Edges::default();
     let cfg = DriveCfg { n, steer_16: *rng.pick(&[0u64, 2, 12]), max_n_symbols: 40, end_near_16: 4 };
@@ -173,6 +197,19 @@ where
         }
         if i == 0 {
             return true;
+        }
+        if peek_16 > 0 && _rng.below(16) < peek_16 {
+            peeks += 1;
+            if num_inverted::<M, S>(e) > 0 {
+                peeks_inverted += 1;
+            }
+            if _rng.bool() {
+                let g = e.get_compressed();
+                let _ = g.len();
+            } else {
+                let d = e.decoder();
+                let _ = d.maybe_exhausted();
+            }
         }
         let bits = e.num_bits() as f64;
         let words = e.num_words();
@@ -198,6 +235,8 @@ where
         return;
     }
     edges.publish(run);
+    run.count("range_peeks_while_encoding", peeks);
+    run.count("range_peeks_while_inverted", peeks_inverted);
     run.count("range_symbols", n as u64);
     run.maximum(
         match (w, s) {
